@@ -20,7 +20,7 @@ from pony.orm import core
 from pony.orm.core import Database, PrimaryKey, Required, Optional, Set
 
 LEVEL = 'model_checking'
-MODES = ['log', 'modify', 'create', 'after_modify']
+MODES = ['log', 'modify', 'create', 'after_modify', 'm2m']
 SHAPES = ['o2m_opt', 'm2m', 'o2m_req_casc']
 
 
@@ -59,7 +59,7 @@ def make_connection_class(log):
         if table in ('ta', 'tb'):
             log.add('fail' if failed else 'stmt', ('A' if table == 'ta' else 'B') + str(pk), kind)
         elif table == 'tlog':
-            log.add('fail' if failed else 'logstmt', 'L', kind)
+            log.add('fail' if failed else 'stmt', 'L%s' % (args[0] if args else ''), kind)
 
     class Cursor(sqlite3.Cursor):
         def execute(self, sql, args=()):
@@ -108,11 +108,16 @@ class HookWorld(session.World):
                     self.w = (self.v if type(self).__name__ == 'A' else self.u or 0) or 0
                     self.w += 10
                 elif mode == 'create' and type(self).__name__ == 'A':
-                    db.Log(ref=self.id)
+                    log.counter = getattr(log, 'counter', 0) % 8 + 1      # a name of its own for every log object in flight
+                    db.Log(ref=log.counter)
                     log.pending_log_rows += 1
+                elif mode == 'm2m' and type(self).__name__ == 'A':
+                    self.tags.add(db.Tag[1])      # a many-to-many change made inside a before_* hook
 
             def before_update(self):
                 log.add('before', name(self), 'update')
+                if mode == 'm2m' and type(self).__name__ == 'A':
+                    self.tags.add(db.Tag[1])
                 if mode == 'modify':
                     self.w = ((self.v if type(self).__name__ == 'A' else self.u) or 0) + 10
 
@@ -135,6 +140,7 @@ class HookWorld(session.World):
             id = PrimaryKey(int)
             v = Optional(int)
             w = Optional(int)
+            tags = Set('Tag', column='tag_id')
             if rel == 'o2m':
                 bs = Set('B', cascade_delete=casc) if casc != breq else Set('B')
             else:
@@ -155,6 +161,18 @@ class HookWorld(session.World):
             id = PrimaryKey(int, auto=True)
             ref = Required(int)
 
+            # objects created inside another object's before_insert hook get their own hooks in the same flush
+            def before_insert(self):
+                log.add('before', 'L%d' % self.ref, 'insert')
+
+            def after_insert(self):
+                log.add('after', 'L%d' % self.ref, 'insert')
+
+        class Tag(db.Entity):
+            _table_ = 'ttag'
+            id = PrimaryKey(int)
+            owners = Set('A', table='ttagl', column='a_id')
+
         self.A, self.B = A, B
         self.links = rel in ('m2m', 'mix')
         db.bind('sqlite', path, create_db=True, factory=make_connection_class(log))
@@ -166,14 +184,24 @@ class HookWorld(session.World):
         session.World.reset(self, state)
         con = self.raw()
         con.execute('DELETE FROM tlog')
+        con.execute('DELETE FROM ttagl')
+        con.execute('DELETE FROM ttag')
+        con.execute('INSERT INTO ttag (id) VALUES (1)')
         con.close()
         self.committed_log_rows = 0
         self.log.pending_log_rows = 0
+        self.hooked_a = set()
 
     def extra_check(self):
         """Edits made inside hooks must be in the database after a commit."""
         con = self.raw()
         try:
+            if self.mode == 'm2m':
+                # every A row written (inserted or updated) by a committed flush had its before_* hook add Tag[1]
+                missing = [a for a in self.hooked_a if con.execute('SELECT 1 FROM ta WHERE id = ?', (a,)).fetchone()
+                           and not con.execute('SELECT 1 FROM ttagl WHERE a_id = ? AND tag_id = 1', (a,)).fetchone()]
+                if missing:
+                    return 'before_* hooks of A%r added Tag[1] to the object\'s tags, but the committed link table has no such rows' % (missing,)
             if self.mode == 'create':
                 n = con.execute('SELECT COUNT(*) FROM tlog').fetchone()[0]
                 if n != self.committed_log_rows:
@@ -196,6 +224,10 @@ def run_mode(ctx, shape, mode, graph, nbeh, seed):
         if op in ('Commit', 'End') and out == 'ok':
             w.committed_log_rows += log.pending_log_rows
             log.pending_log_rows = 0
+            for e in log.events[getattr(log, 'mark2', 0):]:
+                if e['t'] == 'before' and e['o'][0] == 'A' and e['k'] in ('insert', 'update'):
+                    w.hooked_a.add(int(e['o'][1:]))
+            log.mark2 = len(log.events)
             # rows written (insert/update) by committed flushes must carry the hooks' edits
             if mode in ('modify', 'after_modify'):
                 bad = check_w(w, log, mode)
@@ -207,11 +239,13 @@ def run_mode(ctx, shape, mode, graph, nbeh, seed):
         elif op in ('Rollback', 'EndExc') or out == 'Integrity':
             log.pending_log_rows = 0
             log.mark = len(log.events)      # statements of a transaction that was rolled back say nothing about the rows
+            log.mark2 = len(log.events)
 
     def on_behaviour(what, trace):
         if what == 'begin':
             log.events = []
             log.mark = 0
+            log.mark2 = 0
         else:
             log.add('quiesce', 'A1', 'none')
             traces.append({'api': [t for t in trace[1:]], 'init': trace[0], 'evs': log.events})
